@@ -403,9 +403,23 @@ def fn_terms():
     return MK_PARTIAL, EMPTY_KW
 
 
+OBJREG = {}     # sexpr of an ObjRef term -> Obj (reset per path by the interpreter)
+
+
+def obj_term(obj):
+    t = getattr(obj, "term", None)
+    if t is None:
+        t = z3.Const("ref!" + obj.name, usort("ObjRef"))
+        obj.term = t
+    OBJREG[t.sexpr()] = obj
+    return t
+
+
 def z3sort(shape):
     if isinstance(shape, TupleS):
         return tuple_sort(shape)[0]
+    if isinstance(shape, (ObjS, Rec)):
+        return usort("ObjRef")
     if shape is Int:
         return z3.IntSort()
     if shape is Real:
@@ -447,6 +461,8 @@ def to_term(v, shape):
             mk, empty = fn_terms()
             kw = v.kwargs.get("**")
             return mk(to_term(v.fn, Fn), kw.t if kw is not None else empty)
+    if isinstance(shape, (ObjS, Rec)) and v.tag == "obj":
+        return obj_term(v.ref)
     if isinstance(shape, TupleS) and v.tag == "tuple" and len(v.items) == len(shape.items):
         srt, mk, accs = tuple_sort(shape)
         return mk(*[to_term(x if not isinstance(x, VUnion) else _single(x), s) for x, s in zip(v.items, shape.items)])
@@ -472,6 +488,16 @@ def from_term(t, shape):
         return VOpaque(shape.sort, t)
     if shape is Fn:
         return VOpaque("Fn", t)
+    if isinstance(shape, (ObjS, Rec)):
+        t = z3.simplify(t)
+        key = t.sexpr()
+        o = OBJREG.get(key)
+        if o is None:
+            o = Obj(getattr(shape, "cls", "dict"), shape, "elem[%s]" % key.replace(" ", "_")[:80],
+                    kind="obj" if isinstance(shape, ObjS) else "rec")
+            o.term = t
+            OBJREG[key] = o
+        return VObj(o)
     if isinstance(shape, TupleS):
         srt, mk, accs = tuple_sort(shape)
         return VTuple([from_term(z3.simplify(a(t)), sh) for a, sh in zip(accs, shape.items)], shape.ntname, shape.fields)
